@@ -255,47 +255,47 @@ macro_rules! rt_datagram {
 }
 
 //@h props=C16,C04 tier=quick timeout=600 role=codec-roundtrip
-//@fn DataFrameBuilder::{new,add,build,encoded_size}, write_data, read_data_payload, read_datagram, Frame::read
+//@fn DataFrameBuilder::{new,add,build,encoded_size,size,count}, read_datagram
 //@bound one datagram, payload length 0, unfragmented; every header field any (ids 20 bit, channel < 64, leads u16)
 //@assume crc::compute replaced by an uninterpreted constant function
 rt_datagram!(o16_7_roundtrip_datagram_len0, 0, false);
-//@h props=C16,C04 tier=quick timeout=600 role=codec-roundtrip
-//@fn DataFrameBuilder::{new,add,build,encoded_size}, write_data, read_data_payload, read_datagram, Frame::read
+//@h props=C16,C04 tier=thorough timeout=1500 role=codec-roundtrip
+//@fn DataFrameBuilder::{new,add,build,encoded_size,size,count}, read_datagram
 //@bound one datagram, payload length 63 (last micro length), one symbolic byte at a symbolic offset
 //@assume crc::compute replaced by an uninterpreted constant function
 rt_datagram!(o16_7_roundtrip_datagram_len63, 63, false);
 //@h props=C16,C04 tier=quick timeout=600 role=codec-roundtrip
-//@fn DataFrameBuilder::{new,add,build,encoded_size}, write_data, read_data_payload, read_datagram, Frame::read
+//@fn DataFrameBuilder::{new,add,build,encoded_size,size,count}, read_datagram
 //@bound one datagram, payload length 64 (first small length)
 //@assume crc::compute replaced by an uninterpreted constant function
 rt_datagram!(o16_7_roundtrip_datagram_len64, 64, false);
 //@h props=C16,C04 tier=quick timeout=600 role=codec-roundtrip
-//@fn DataFrameBuilder::{new,add,build,encoded_size}, write_data, read_data_payload, read_datagram, Frame::read
+//@fn DataFrameBuilder::{new,add,build,encoded_size,size,count}, read_datagram
 //@bound one datagram, payload length 255 (last small length)
 //@assume crc::compute replaced by an uninterpreted constant function
 rt_datagram!(o16_7_roundtrip_datagram_len255, 255, false);
 //@h props=C16,C04 tier=quick timeout=600 role=codec-roundtrip
-//@fn DataFrameBuilder::{new,add,build,encoded_size}, write_data, read_data_payload, read_datagram, Frame::read
+//@fn DataFrameBuilder::{new,add,build,encoded_size,size,count}, read_datagram
 //@bound one datagram, payload length 256 (first large length)
 //@assume crc::compute replaced by an uninterpreted constant function
 rt_datagram!(o16_7_roundtrip_datagram_len256, 256, false);
 //@h props=C16,C04 tier=quick timeout=600 role=codec-roundtrip
-//@fn DataFrameBuilder::{new,add,build,encoded_size}, write_data, read_data_payload, read_datagram, Frame::read
+//@fn DataFrameBuilder::{new,add,build,encoded_size,size,count}, read_datagram
 //@bound one datagram, payload length 1448 (a full fragment), fragment id/last any with id <= last: frame is exactly 1472 bytes
 //@assume crc::compute replaced by an uninterpreted constant function
 rt_datagram!(o16_7_roundtrip_datagram_frag1448, 1448, true);
 //@h props=C16,C04 tier=thorough timeout=600 role=codec-roundtrip
-//@fn DataFrameBuilder::{new,add,build,encoded_size}, write_data, read_data_payload, read_datagram, Frame::read
+//@fn DataFrameBuilder::{new,add,build,encoded_size,size,count}, read_datagram
 //@bound one datagram, payload length 1 fragmented (last fragment of a multi-fragment packet)
 //@assume crc::compute replaced by an uninterpreted constant function
 rt_datagram!(o16_7_roundtrip_datagram_frag1, 1, true);
 //@h props=C16,C04 tier=thorough timeout=600 role=codec-roundtrip
-//@fn DataFrameBuilder::{new,add,build,encoded_size}, write_data, read_data_payload, read_datagram, Frame::read
+//@fn DataFrameBuilder::{new,add,build,encoded_size,size,count}, read_datagram
 //@bound one datagram, payload length 1448 unfragmented
 //@assume crc::compute replaced by an uninterpreted constant function
 rt_datagram!(o16_7_roundtrip_datagram_len1448, 1448, false);
 //@h props=C16,C04 tier=thorough timeout=600 role=codec-roundtrip
-//@fn DataFrameBuilder::{new,add,build,encoded_size}, write_data, read_data_payload, read_datagram, Frame::read
+//@fn DataFrameBuilder::{new,add,build,encoded_size,size,count}, read_datagram
 //@bound one datagram, payload length 1
 //@assume crc::compute replaced by an uninterpreted constant function
 rt_datagram!(o16_7_roundtrip_datagram_len1, 1, false);
